@@ -425,7 +425,10 @@ KF_C15_3(L) == \E i, j \in 1..Len(L) : i # j /\ L[i].k = "M" /\ L[j].k = "M" /\ 
 KF_C15_4 == reused
 
 \* which known findings explain the difference between the two replays (empty: none needed)
-MetaDropped(a, b, L, F) == \A l \in Labs : a.meta[l] # b.meta[l] => KF_C15_1m(L, F, l, b.meta[l])
+\* an orphaned full-range stone no longer evicts the series, which lives on (with its metadata) under a
+\* duplicate series record that is still in L
+KF_C15_1t(L) == \E i \in Orphans(L) : FullRange(L[i])
+MetaDropped(a, b, L, F) == \A l \in Labs : a.meta[l] # b.meta[l] => (KF_C15_1m(L, F, l, b.meta[l]) \/ KF_C15_1t(L))
 Explain(a, b, L, F, ru) ==
   (IF ru THEN {"KF-C15-4"} ELSE {}) \cup
   (IF a.ex # b.ex /\ KF_C15_2(a, b, L) THEN {"KF-C15-2"} ELSE {})
